@@ -55,6 +55,10 @@ def mk_plain(spec):
         return fm.RectilinearGrid(ax, order=lay["order"], axes_reversed=lay["rev"], data_location=loc)
     if k == "esri":
         return fm.EsriGrid(ncols=3, nrows=2, cellsize=0.8, xllcorner=0.1, yllcorner=0.0, order=lay["order"])
+    if k == "big":  # 40 x 30 cells = 1200 data locations
+        return fm.UniformGrid((41, 31), spacing=(0.25, 0.3), origin=(-0.1, 0.0), order=lay["order"], axes_reversed=lay["rev"], axes_increase=lay["inc"][:2], data_location=loc)
+    if k == "coarse":  # 7 x 5 cells = 35 data locations over the same area
+        return fm.UniformGrid((8, 6), spacing=(1.4, 1.8), origin=(0.0, 0.1), order=lay["order"], axes_reversed=lay["rev"], axes_increase=lay["inc"][:2], data_location=loc)
     if k == "uni3":
         return fm.UniformGrid((3, 3, 2), spacing=(1.0, 0.9, 1.1), order=lay["order"], axes_reversed=lay["rev"], axes_increase=lay["inc"][:3], data_location=loc)
     if k == "uni3b":
@@ -84,7 +88,7 @@ def bits_mask(bits, grid):
     return flat.reshape(tuple(int(s) for s in grid.data_shape), order=grid.order)
 
 
-def run_regrid(adapter, gs, gt, smask, tmask, fields):
+def run_regrid(adapter, gs, gt, smask, tmask, fields, dtype=float):
     """pushes each field (values per source location, data_points order); returns list of (flat values, flat mask) in target data_points order"""
     out = fm.Output("o", fm.Info(time=T0, grid=gs, units="m", mask=fm.Mask.NONE if smask is None else smask))
     inp = fm.Input("i", fm.Info(time=T0, grid=gt, units="m", mask=fm.Mask.FLEX if tmask is None else tmask))
@@ -95,9 +99,9 @@ def run_regrid(adapter, gs, gt, smask, tmask, fields):
     from datetime import timedelta
 
     for k, f in enumerate(fields):
-        d = np.asarray(f, dtype=float).reshape(tuple(int(s) for s in gs.data_shape), order=gs.order)
+        d = np.asarray(f, dtype=dtype).reshape(tuple(int(s) for s in gs.data_shape), order=gs.order)
         if smask is not None:
-            d = np.ma.array(np.where(smask, POISON, d), mask=smask)
+            d = np.ma.array(np.where(smask, dtype(POISON), d), mask=smask)
         t = T0 + timedelta(hours=k)
         out.push_data(d, t)
         got = inp.pull_data(t).magnitude[0]
@@ -114,9 +118,13 @@ def check_nearest(case):
     tm = np.zeros(len(tp), dtype=bool) if tmask is None else tmask.ravel(order=gt.order)
     if sm.all():
         return []
-    ident = 1000.0 + np.arange(len(sp))
+    if case.get("int64"):
+        # 64-bit integers beyond 2**53 (time stamps, ids): the nearest source value must arrive exactly
+        ident = (10**18 + 5 + np.arange(len(sp), dtype=np.int64)).astype(np.int64)
+    else:
+        ident = 1000.0 + np.arange(len(sp))
     try:
-        (vals, gmask), = run_regrid(fm.adapters.RegridNearest(), gs, gt, smask, tmask, [ident])
+        (vals, gmask), = run_regrid(fm.adapters.RegridNearest(), gs, gt, smask, tmask, [ident], dtype=np.int64 if case.get("int64") else float)
     except Exception as e:  # noqa
         return [("exception", f"{type(e).__name__}: {str(e)[:100]}")]
     bad = []
@@ -132,7 +140,7 @@ def check_nearest(case):
         dist[sm] = np.inf
         near = np.where(np.isclose(dist, dist.min(), rtol=1e-12, atol=1e-12))[0]
         if not any(vals[j] == ident[k] for k in near):
-            src = int(vals[j] - 1000) if 1000 <= vals[j] < 1000 + len(sp) else None
+            src = int(vals[j] - ident[0]) if ident[0] <= vals[j] < ident[0] + len(sp) else None
             why = "masked_source_used" if (src is not None and sm[src]) or vals[j] == POISON else "not_nearest_source"
             bad.append((why, f"target {j} at {p.tolist()} got source {src} (value {vals[j]}), nearest unmasked {near.tolist()}"))
         if len(bad) > 3:
@@ -292,6 +300,16 @@ def items(tier):
         for order in "FC":
             out.append(dict(kind="nearest", src=dict(kind="esri", lay=dict(order=order, rev=True, inc=[True, False])), dst=dict(kind="pts", lay=dict(order="C", rev=False, inc=[True, True])), smask=bits))
             out.append(dict(kind="nearest", src=dict(kind="uni2", lay=L2[bits % 16], loc="CELLS"), dst=dict(kind="pts", lay=dict(order=order, rev=False, inc=[True, True])), smask=bits))
+    # many data locations on one side (index tables wider than one byte), fine -> coarse and coarse -> fine
+    for l1 in (L2[0], L2[5], L2[10]):
+        for l2 in (L2[0], L2[9]):
+            out.append(dict(kind="nearest", src=dict(kind="big", lay=l1, loc="CELLS"), dst=dict(kind="coarse", lay=l2, loc="CELLS")))
+            out.append(dict(kind="nearest", src=dict(kind="coarse", lay=l2, loc="POINTS"), dst=dict(kind="big", lay=l1, loc="CELLS")))
+    out.append(dict(kind="nearest", src=dict(kind="big", lay=L2[0], loc="POINTS"), dst=dict(kind="coarse", lay=L2[3], loc="CELLS"), smask=(1 << 700) | (1 << 3) | (1 << 1100)))
+    # 64-bit integer payloads with and without masks
+    for bits in (None, 5, 33):
+        for tb in (None, 9):
+            out.append(dict(kind="nearest", src=dict(kind="uni2", lay=L2[2], loc="CELLS"), dst=dict(kind="uni2b", lay=L2[7], loc="CELLS"), smask=bits, tmask=tb, int64=True))
     # linear: unstructured sources and masked structured sources
     for fill in (False, True):
         for l2 in L2:
